@@ -13,16 +13,26 @@ from typing import Any, Dict, List, Optional, Tuple
 from ..core import Ctx, REPO, enc
 
 THEOREMS = [
+    # totality of the five docstring entry points (full; C01 builds on `total` and `frame_step`)
     "Docstring.ensure_total", "Docstring.doc_total", "Docstring.summary_total", "Docstring.extract_total",
     "Docstring.toc_total", "Docstring.total", "Docstring.total_old_counterexample", "Docstring.toc_old_spec",
-    "Docstring.base_get_summary_total",
-    "Docstring.toc_spec", "Docstring.fallback_full_text", "Docstring.fallback_uses_source_text", "Docstring.isolation_source",
+    "Docstring.base_get_summary_total", "Docstring.toc_spec", "Docstring.frame_step",
+    # fallback text / reporting
+    "Docstring.fallback_full_text", "Docstring.fallback_uses_source_text", "Docstring.isolation_source",
     "Docstring.parse_fallback_full_text", "Docstring.ensure_fallback_full_text",
     "Docstring.render_fallback_full_text", "Docstring.unreported_parse_error_counterexample",
     "Docstring.render_failure_reported", "Docstring.render_failure_masked_counterexample",
     "Docstring.recovered_errors_reported",
-    "Docstring.reported_once", "Docstring.second_call_silent", "Docstring.isolation",
-    "Docstring.summary_fallback_touches_source",
+    "Docstring.reported_once", "Docstring.second_call_silent", "Docstring.doc_second_call", "Docstring.isolation",
+    "Docstring.summary_fallback_touches_source", "Docstring.extract_spec",
+    # the further wrappers (round 3)
+    "Docstring.pyval_raises_iff", "Docstring.pyval_failure_reported", "Docstring.signature_total",
+    "Docstring.signature_failure_reported", "Docstring.type_total_partial", "Docstring.typed_failure_escapes",
+    "Docstring.type_counterexample", "Docstring.constant_total_partial", "Docstring.class_signature_total_partial",
+    "Docstring.decorators_total_partial", "Docstring.getParsedType_cached",
+    "Docstring.search_raises_iff", "Docstring.search_total_partial", "Docstring.search_counterexample",
+    "Docstring.loose_xstep", "Docstring.x_isolation", "Docstring.x_reported_once",
+    # epytext pieces
     "Docstring.epytext_raises_iff_fatal",
     "Docstring.slugify_terminates", "Docstring.slugify_loops_without_distinct_candidates",
 ]
@@ -33,12 +43,19 @@ PARTIAL = {
         "before raising ParseError (epytext does: epytext_raises_iff_fatal) and the object was not reported before",
     "Docstring.render_failure_reported": "needs: the object was not reported before in this section "
         "(render_failure_masked_counterexample: an earlier docutils warning hides the renderer failure from the log)",
+    "Docstring.type_total_partial": "type2stan returns under FallbackSafe (whenever to_stan of a body raises, its to_node returns); FALSE "
+        "of HEAD for ParsedTypeDocstring bodies: typed_failure_escapes / type_counterexample, open finding type2stan:fallback-raises",
+    "Docstring.constant_total_partial": "same hypothesis; a ColorizedPyvalRepr always has a to_node, so no real input is excluded",
+    "Docstring.class_signature_total_partial": "same", "Docstring.decorators_total_partial": "same",
+    "Docstring.search_total_partial": "search.format_docstring returns if to_node raises nothing but NotImplementedError; FALSE of HEAD "
+        "otherwise: search_raises_iff / search_counterexample, open finding search:to_node-exception-escapes",
 }
 RULE = ("fault stream: the real epydoc2stan/markup functions run over stub parsers / stub ParsedDocstrings realising every "
         "outcome of every parameter (parser x processtypes step x to_stan x to_node x summary walk x toc builder x field "
         "bodies) x 5 docformats x process-types x object kind (Module, Class, Function, Attribute) x first/second call, "
         "plus random multi-object op sequences (inherited docstrings, split fields, empty docstrings, module docformat "
-        "overrides, unknown docformat); real stream: markup-fragment grammar for each format, mutated docstrings of "
+        "overrides, unknown docformat, `type`/`ivar` fields split by extract_fields, type2stan / constant value / signature / "
+        "class signature / decorators / search text with every (to_stan, to_node) outcome of the colorized value); real stream: markup-fragment grammar for each format, mutated docstrings of "
         "/repo/pydoctor and /repo/docs, arbitrary Unicode incl. control characters, each under every docformat with "
         "process-types and object kind cycling (full product in the thorough tier); oracle-only stream: lone surrogates "
         "through the AST builder. Non-trivial = the parser or a renderer step fails/falls back (fault stream) / the real "
@@ -53,7 +70,14 @@ ASSUMPTIONS = [
     "it is exercised by the real stream with a per-case alarm",
     "no ParsedDocstring subclass in /repo overrides get_summary/get_toc (checked by introspection each run)",
     "objects have distinct full names (System.parse_errors is keyed by fullName())",
-    "in format_docstring every field body is formatted once, in handler call order; the FieldHandler dispatch itself is C09's",
+    "in format_docstring every field body whose handler formats it is formatted once, in call order; `type` fields: stored as "
+    "parsed_type for an Attribute, formatted only with an argument elsewhere; `ivar/cvar/var` not formatted. The rest of the "
+    "FieldHandler dispatch and the warnings filed through Field.report / 'Missing field name' are C09's (generators avoid "
+    "`type` fields in Function docstrings, where handle_type files such a warning)",
+    "extract_fields: the attribute a field names exists (creating a new Attribute for an unknown name is the registry's business, C02); "
+    "field bodies carry no fields of their own",
+    "`parent` and the docsources order are parameters of the model; the harness checks them against the real objects each run",
+    "the once-only import message is modelled as a flag (one message per distinct unknown docformat name in the code)",
     "the docstring linker (switch_context, link_xref) does not raise outside to_stan",
     "real stream, model side: the parser composed with processtypes is ONE observed parameter (pt=0 is sent to the model); the "
     "processtypes composition itself is tied by the fault stream",
@@ -1062,13 +1086,35 @@ def injected_outcome(spec: Dict[str, Any], fmt: str, i: int):
         return ("raise", not (arg[0] == "p" and not errs))
     if arg != "plain" and spec["pt"] and fmt not in "gnp":
         pd = spec.get("pd", {}).get(arg) or default_pd(arg)
-        for (t, bk, ln) in pd["F"]:
+        for f in pd["F"]:
+            t, bk = f[0] in (1, 2), f[1]
             if t:
                 b = spec.get("pd", {}).get(bk) or default_pd(bk)
                 ty = spec.get("ty", {}).get(bk) or default_ty(bk)
                 if b["N"][0] == "x" or ty["M"][0] == "x":
                     return ("raise", True)
     return ("ret", arg, errs)
+
+
+OP_NAMES = {"e": "ensure", "d": "docstring", "s": "summary", "t": "toc", "x": "extract", "y": "type", "c": "constant", "g": "signature", "b": "class-signature", "r": "decorators", "q": "search"}
+
+
+def wrapper_failure(ctx: Ctx, t, inp, injected_pyval: bool) -> bool:
+    """an exception out of one of the further wrappers; returns True when it was classified here"""
+    e = t["raised"]
+    if t["op"] == "q":
+        ctx.fail("search:to_node-exception-escapes", inp, "search.format_docstring raised %s: to_node() of the parsed docstring "
+                 "failed and only NotImplementedError is handled there — the run aborts while the search index is built" % type(e).__name__)
+        return True
+    if t["op"] == "y":
+        ctx.fail("type2stan:fallback-raises", inp, "type2stan raised %s: to_stan of the type failed and colorized_pyval_fallback "
+                 "calls to_node() without a handler (a ParsedTypeDocstring has no to_node)" % type(e).__name__)
+        return True
+    if t["op"] in "cbr" and injected_pyval:
+        # a ColorizedPyvalRepr always has a to_node(): a stub whose to_node raises is outside that contract
+        ctx.count("fault:colorizer-contract-breach-injected")
+        return True
+    return False
 
 
 def fault_oracle(ctx: Ctx, w: World, spec: Dict[str, Any], trace) -> None:
@@ -1079,7 +1125,7 @@ def fault_oracle(ctx: Ctx, w: World, spec: Dict[str, Any], trace) -> None:
     seen: Dict[Tuple[str, int], int] = {}
     prev = 0
     for t in trace:
-        opn = {"e": "ensure", "d": "docstring", "s": "summary", "t": "toc", "x": "extract"}[t["op"]]
+        opn = OP_NAMES[t["op"]]
         if t["hang"]:
             fail("hang:" + opn, "%s did not return within the time limit" % opn)
         elif t["raised"] is not None:
@@ -1089,6 +1135,8 @@ def fault_oracle(ctx: Ctx, w: World, spec: Dict[str, Any], trace) -> None:
             elif t["op"] == "t":
                 fail("toc:unguarded-exception", "format_toc raised %s: an exception of to_node()/build_table_of_content() "
                      "inside ParsedDocstring.get_toc is not handled" % type(e).__name__)
+            elif wrapper_failure(ctx, t, {"kind": "fault", "spec": spec_json(spec)}, True):
+                pass
             else:
                 fail("%s:raises:%s" % (opn, type(e).__name__), "%s raised %s" % (opn, type(e).__name__))
         elif t["flat_err"]:
@@ -1103,8 +1151,15 @@ def fault_oracle(ctx: Ctx, w: World, spec: Dict[str, Any], trace) -> None:
     errs_now = {w.ids[n] for n in w.system.parse_errors.get("docstring", ())}
     reported = {}
     for (i, descr, section, off) in w.reports:
-        reported.setdefault(i, []).append(descr)
+        if section == "docstring":      # the other sections (annotation, signature, …) are about the object itself
+            reported.setdefault(i, []).append(descr)
     touched = {i for _, i in spec["ops"]}
+    for p in spec.get("pd", {}).values():           # attributes named by ivar/type fields are written by extract_fields
+        touched |= {f[3] for f in p["F"] if len(f) > 3 and f[3] is not None}
+    ann_now = {w.ids[n] for n in w.system.parse_errors.get("annotation", ())}
+    for t in trace:
+        if t["op"] == "y" and t["raised"] is None and t["tok"] == "typ=code" and t["obj"] not in ann_now:
+            fail("type:fallback-not-reported", "the type's to_stan failed (plain-text fallback shown) but nothing was reported in section annotation")
     sources = {spec_source(spec, i) for i in touched} | {PARENT[i] for i in touched if spec["objs"].get(i, {}).get("parsed") is not None}
     for i, o in enumerate(w.objs):
         if i in touched or i in sources:
@@ -1115,6 +1170,21 @@ def fault_oracle(ctx: Ctx, w: World, spec: Dict[str, Any], trace) -> None:
     x = spec.get("x")
     if x is None:
         return
+    if any(op == "x" for op, _ in spec["ops"]) and spec.get("pd", {}).get(1, {}).get("F"):
+        # extract_fields split an `ivar` field onto a child: the child's documentation IS that field body; when its
+        # renderer fails the parent's whole docstring is shown and the parent is the object reported
+        for f in spec["pd"][1]["F"]:
+            if f[0] == 3 and len(f) > 3 and f[3] is not None and injected_outcome(spec, spec_docformat(spec, x), x)[0] == "ret":
+                body = spec["pd"].get(f[1]) or default_pd(f[1])
+                last = [g for g in spec["pd"][1]["F"] if g[0] == 3 and len(g) > 3 and g[3] == f[3]][-1]
+                if body["S"][0] == "x" and last is f:
+                    for t in trace:
+                        if t["op"] == "d" and t["obj"] == f[3] and t["raised"] is None:
+                            if t["body"] != "pre:" + enc(spec["objs"][x]["doc"]):
+                                fail("split-field:fallback-not-parent-text", "the body of a split field failed to render and the "
+                                     "attribute does not show the parent's original docstring")
+                            if x not in {w.ids[n] for n in w.system.parse_errors.get("docstring", ())}:
+                                fail("split-field:not-reported", "the failure of a split field body was not reported against the parent")
     # ---- single-object cases: the property's clauses one by one
     src = holder_of(x)          # the object the docstring is written on (x itself unless inherited)
     doc = spec["objs"][src]["doc"]
@@ -1149,8 +1219,11 @@ def fault_oracle(ctx: Ctx, w: World, spec: Dict[str, Any], trace) -> None:
                 if shown and src not in errs_now:
                     fail("render-fallback:not-reported", "to_stan raised and the object is not among the reported objects")
             pt_applies = bool(spec["pt"]) and fmt not in "gnp"
+            # the fields whose handler formats the body (`ivar` never; `type` not for an Attribute, else only with an argument)
+            formatted = [f for f in p["F"] if f[0] in (0, 1) or (f[0] == 2 and x not in ATTRS and len(f) > 3 and f[3] is not None)]
             for t in shown:
-                for j, (isty, bk, ln) in enumerate(p["F"]):
+                for j, f in enumerate(formatted):
+                    isty, bk = f[0] in (1, 2), f[1]
                     b = spec.get("pd", {}).get(bk) or default_pd(bk)
                     s = (spec.get("ty", {}).get(bk) or default_ty(bk))["S"] if (isty and pt_applies) else b["S"]
                     got = t["fields"][j] if j < len(t["fields"]) else "missing"
@@ -1390,6 +1463,10 @@ REGRESSION_DOCS = [
     "Run the job.\n\nPage one of the notes,\ufffecontinued after an odd character.\nPage two of the notes.",
     "Summary.\n @param a: x\n\n@param b: y",
     "Summary.\n @ivar a: x\n\n@ivar b: y",
+    "@type: C{a\x0cb}",
+    ":type: ``a\xa0b``",
+    "int or ``a\xa0\xa0b``: the x",
+    "The x.\n\n@type: L{int} or C{None}",
     " - item \u0301\x0f\x05m\x02B\u2029\xa0\x10\x92",
     "Args:\n x (list[int\n\nReturns\n-------\n",
 ]
@@ -1566,9 +1643,15 @@ class Observer:
                 k = base + 9 + j
                 fs.append((0, k, 0))
                 self.spec["pd"][k] = dict(default_pd(k), S=self.stan_out(b, linker, k))
+            if i in ATTRS:
+                # handle_type stores the body of a `type` field of an Attribute's docstring as obj.parsed_type (not formatted)
+                for j, f in enumerate(x for x in val.fields if x.tag() == "type"):
+                    k = base + 40 + j
+                    fs.append((2, k, 0, None))
+                    self.names[id(f.body())] = "u%d" % k
             n, wtok, ttok = self.observe_pd(val, linker, base, base + 1, base + 2)
             self.spec["pd"][base] = {"S": self.stan_out(val, linker, base), "N": n, "W": wtok, "T": ttok, "F": fs}
-            self.names[id(val)] = "user%d[%s]" % (base, ";".join("0/u%d/0" % k for (_, k, _) in fs) or "-")
+            self.names[id(val)] = "user%d[%s]" % (base, ";".join("%d/u%d/0" % (f[0], f[1]) for f in fs) or "-")
         pd = o.parsed_docstring
         if isinstance(pd, ParsedPlaintextDocstring):
             n, wtok, ttok = self.observe_pd(pd, linker, base + 5, base + 3, base + 4)
@@ -1627,7 +1710,23 @@ def run_real_case(w: World, fmt: str, pt: int, x: int, doc: str, td: int, limit:
         return None, None, trace, rec
     req = request_of(ob.spec)
     line = "ok " + " ; ".join(outs) + canon_state(w, ob.descr_token, ob.pdname, only_report_errors=True)
+    run_real_extras(w, x, trace, limit)
     return req, line, trace, rec
+
+
+def run_real_extras(w: World, x: int, trace, limit: float) -> None:
+    """the further wrappers on the same object, with the real colorizers (oracle only: they run after the state that is
+    compared with the model has been taken)"""
+    ops = [("q", x)] + ([("y", x), ("c", x)] if x in ATTRS else []) + ([("g", x)] if x in FUNCS else [])
+    saved = w.spec
+    w.spec = {}
+    try:
+        outs, extra = run_ops(w, ops, limit=limit)
+    finally:
+        w.spec = saved
+    for t in extra:
+        t["extra"] = True
+    trace.extend(extra)
 
 
 PRE_RE = re.compile(r'^<div><p class="pre">(.*?)</p>', re.S)
@@ -1645,13 +1744,15 @@ def real_oracle(ctx: Ctx, w: World, fmt: str, pt: int, x: int, doc: str, td: int
     prev = 0
     seen = set()
     for t in trace:
-        opn = {"e": "ensure", "d": "docstring", "s": "summary", "t": "toc", "x": "extract"}[t["op"]]
+        opn = OP_NAMES[t["op"]]
         if t["hang"]:
             fail("hang:" + opn, "%s did not return within the time limit (docformat %s)" % (opn, FMT_OF[fmt]))
             return False
         if t["raised"] is not None:
             if t["op"] == "t":
                 fail("toc:unguarded-exception", "format_toc raised %s" % type(t["raised"]).__name__)
+            elif wrapper_failure(ctx, t, inp, False):
+                pass
             else:
                 fail("%s:raises:%s" % (opn, type(t["raised"]).__name__), "%s raised %s" % (opn, type(t["raised"]).__name__))
         elif t["flat_err"]:
@@ -1885,7 +1986,9 @@ def run(ctx: Ctx) -> None:
     check_no_overrides(ctx)
     w = World()
     # ---- (a) fault injection on the real wrapper functions
-    cases = list(exhaustive_fault_cases(ctx.quick))
+    for m in w.param_mismatch:
+        ctx.broken.append("correspondence assumption (parent / docsources parameters): " + m)
+    cases = list(exhaustive_fault_cases(ctx.quick)) + list(wrapper_fault_cases())
     ctx.extra["exhaustive_fault_cases"] = len(cases)
     nrand = 1200 if ctx.quick else 25000
     cases += [random_fault_case(ctx.rng) for _ in range(nrand)]
@@ -1902,7 +2005,9 @@ def run(ctx: Ctx) -> None:
             nontriv = (" R -" not in line) or "broken" in line or "raise:" in line
             ctx.case(req, nontriv, {"request": req[:600], "impl": line[:600]} if nontriv and len(ctx.samples) < 2 else None)
             ctx.count("fault:" + ("single-object" if "x" in sp else "multi-object"))
-            for tok in ("raise:", "broken", "brokensum", "nosum", "undoc"):
+            for op in sorted({op for op, _ in sp["ops"]}):
+                ctx.count("fault:op:" + OP_NAMES[op])
+            for tok in ("raise:", "broken", "brokensum", "nosum", "undoc", "=code", "sigbroken"):
                 if tok in line:
                     ctx.count("fault:out:" + tok.rstrip(":"))
             fault_oracle(ctx, w, sp, trace)
@@ -1918,8 +2023,8 @@ def run(ctx: Ctx) -> None:
     with instrument(w), record_patches(w):
         for n in range(nstr):
             stream, doc = ("regression", REGRESSION_DOCS[n]) if n < len(REGRESSION_DOCS) else gen_real_docstring(ctx.rng)
-            if n < len(REGRESSION_DOCS):   # past failures: own and inherited docstring under every format
-                combos = [(f, (n + fi) % 2, x) for fi, f in enumerate("ergnp") for x in (2, 8)]
+            if n < len(REGRESSION_DOCS):   # past failures: own / inherited / attribute docstring, every format, process-types on and off
+                combos = [(f, pt, x) for f in "ergnp" for pt in (0, 1) for x in (2, 8, 3)]
             elif ctx.quick:
                 combos = [(f, (n + fi) % 2, XS[(n + fi) % 5]) for fi, f in enumerate("ergnp")]
             else:
